@@ -5,6 +5,9 @@
 From Coq Require Import ZArith List Bool String.
 Import ListNotations.
 From Verif Require Import Base.Out Model.Shell Proofs.ShellProofs.
+(* translator tie: required here, imported where the source theorems start (coqdep reads Requires reliably only
+   in the header, see harness/PYMINI.md) *)
+From Verif Require Base.PyValue Model.PyMini Model.PrimsApi Model.PrimsShell Gen.SrcShell Proofs.SrcShell Proofs.SrcShellSet.
 From Verif Require Gen.Settings.
 Open Scope list_scope.
 Open Scope Z_scope.
@@ -237,7 +240,7 @@ Example C19_example_hypotheses :
   find_query demo_world (s2z "one") <> None.
 Proof. vm_compute. repeat split; discriminate. Qed.
 
-From Verif Require Import Base.PyValue Model.PyMini Model.PrimsApi Gen.SrcShell Proofs.SrcShell.
+Import Verif.Base.PyValue Verif.Model.PyMini Verif.Model.PrimsApi Verif.Model.PrimsShell Verif.Gen.SrcShell Verif.Proofs.SrcShell Verif.Proofs.SrcShellSet.
 
 (* ---- Tie by translation (re-checked on every run against the CURRENT source of beanquery/shell.py).
    Gen/SrcShell.v holds the PyMini translations (harness/vf/py2mini.py + src_api.py, from inspect.getsource of the
@@ -256,15 +259,14 @@ Proof. exact parseline_src. Qed.
 Print Assumptions C19_source_parseline.
 
 Theorem C19_source_onecmd : forall (call_ref : nat -> list pv -> pv) (msg : string -> list pv -> pv)
-    (ga : list Z -> option nat) (kpl kexec kerr kwarn : nat) (flds : env) (line : list Z),
+    (ga : list Z -> option nat) (kpl kexec kwarn : nat) (flds : env) (evs : list pv) (line : list Z),
   ref_of refs "_warnings.warn:stacklevel" = Some kwarn ->
   PyMini.lookup "parseline" flds = Some (PRef kpl) -> PyMini.lookup "execute" flds = Some (PRef kexec) ->
-  PyMini.lookup "error" flds = Some (PRef kerr) ->
+  PyMini.lookup "$events" flds = Some (PList evs) ->
   (forall l, call_ref kpl [PS l] = sh_parseline l) ->
   (forall args, exists v, do_call call_ref (PRef kwarn) args = Ok v) ->
-  (forall args, exists v, do_call call_ref (PRef kerr) args = Ok v) ->
   call_method call_ref (prim_api (shell_lib ga) msg) shell_onecmd flds [PS line] =
-  dispatch call_ref ga kexec flds (classify line).
+  dispatch call_ref ga kexec flds evs (classify line).
 Proof. exact onecmd_src. Qed.
 Print Assumptions C19_source_onecmd.
 
@@ -279,6 +281,81 @@ Theorem C19_source_parse_bool : forall (call_ref : nat -> list pv -> pv) (msg : 
 Proof. exact parse_bool_src. Qed.
 Print Assumptions C19_source_parse_bool.
 
+(* ---- Settings as a typed store, from the source.  The Settings object is a VALUE (record of its fields);
+   getattr / setattr / todict / type / repr are primitives (Model/PrimsApi.v, Model/PrimsShell.v); the _parse_ methods
+   and the classes str / int are opaque callables that return what their own ties say (callables_ok). *)
+Theorem C19_source_parse_format : forall (call_ref : nat -> list pv -> pv) (msg : string -> list pv -> pv)
+    (ga : list Z -> option nat) (flds : env) (v : list Z),
+  call_method call_ref (prim_api (shell_lib ga) msg) settings_parse_format flds [PS v] =
+  match parse_format v with inr s => Ok (flds, PS s) | inl _ => Exc ValueError end.
+Proof. exact parse_format_src. Qed.
+Print Assumptions C19_source_parse_format.
+
+Theorem C19_source_getstr : forall (call_ref : nat -> list pv -> pv) (msg : string -> list pv -> pv)
+    (st : state) (n : list Z),
+  call_function call_ref (prim_api settings_lib msg) settings_getstr [enc_state st; PS n] =
+  match Shell.lookup st n with Some v => Ok (PS (getstr v)) | None => Exc AttributeError end.
+Proof. exact getstr_src. Qed.
+Print Assumptions C19_source_getstr.
+
+(* setstr: AttributeError for an unknown name, ValueError for an invalid value (store unchanged: the call raises
+   before setattr), otherwise exactly the named field holds parse_value's result *)
+Theorem C19_source_setstr : forall (call_ref : nat -> list pv -> pv) (msg : string -> list pv -> pv)
+    (st : state) (n v : list Z),
+  callables_ok call_ref -> no_parse_field st ->
+  call_on_value call_ref (prim_api settings_lib msg) settings_setstr [enc_state st; PS n; PS v] =
+  match Shell.lookup st n with
+  | None => Exc AttributeError
+  | Some cur =>
+      match parse_value n (type_of cur) v with
+      | inl _ => Exc ValueError
+      | inr new => Ok (enc_state (Shell.update st n new), PNone)
+      end
+  end.
+Proof. exact setstr_src. Qed.
+Print Assumptions C19_source_setstr.
+
+(* `.set`: the translated DispatchingShell.do_set on a shell whose settings are st and which has written evs so far
+   (rule R10: print(.., file=self.outfile) and self.error(..) append to $events), for EVERY argument string: the
+   store afterwards and the events appended are those of this model's do_set (do_set_abs is do_set with symbolic
+   events: C19_source_do_set_model), so every `.set` law above (C19_set_changes_exactly_one, C19_invalid_value,
+   C19_unknown_setting, C19_set_echo, C19_set_lists_all ..) speaks about what the code does.  settings.getstr /
+   setstr are called on another object: their primitive semantics (Model/PrimsShell.v) is what C19_source_getstr /
+   C19_source_setstr prove of their translated bodies. *)
+Theorem C19_source_do_set : forall (call_ref : nat -> list pv -> pv) (msg : string -> list pv -> pv)
+    (ga : list Z -> option nat) (st : state) (evs : list pv) (arg : list Z),
+  NoDup (map fst st) ->
+  call_method call_ref (prim_api (shell_lib ga) msg) shell_do_set (sflds st evs) [PS arg] =
+  let r := do_set_abs st arg in
+  match raise_of (snd r) with
+  | Some k => Exc k
+  | None => Ok (sflds (fst r) (evs ++ map (enc_aev msg) (snd r)), PNone)
+  end.
+Proof. exact do_set_src. Qed.
+Print Assumptions C19_source_do_set.
+
+Theorem C19_source_do_set_model : forall (W : World) (st : state) (arg : list Z),
+  do_set W st arg = (fst (do_set_abs st arg), map (conc W) (snd (do_set_abs st arg))).
+Proof. exact do_set_abs_ok. Qed.
+Print Assumptions C19_source_do_set_model.
+
+(* BQLShell.parse, the default CLOSE date of `.run`: the date is written into the parsed statement exactly when
+   with_default_close (the function C19_run_default_close is stated over) does: a SELECT whose from_clause is a
+   From node without CLOSE; every other statement is returned as parsed *)
+Theorem C19_source_run_default_close : forall (call_ref : nat -> list pv -> pv) (msg : string -> list pv -> pv)
+    (ga : list Z -> option nat) (flds : env) (ctx line : pv) (k : kind) (f : fromkind) (c : closekind)
+    (date : Z) (d : option Z),
+  date <> 0 ->
+  PyMini.lookup "context" flds = Some ctx ->
+  opaque_method msg "call:parse" [ctx; line] = Ok (enc_stmt k f (enc_close c date)) ->
+  call_method call_ref (prim_api (shell_lib ga) msg) shell_parse flds [line; enc_date d] =
+  Ok (flds, match k, f, c with
+            | KSelect, FFrom, CNone => enc_stmt k f (enc_date d)
+            | _, _, _ => enc_stmt k f (enc_close c date)
+            end).
+Proof. exact parse_default_close_src. Qed.
+Print Assumptions C19_source_run_default_close.
+
 (* Non-vacuity: a shell whose parseline is the tied one, on the line "set boxed 1" (no dot: legacy command). *)
 Example C19_source_example :
   let ga := fun n : list Z => if zeqb n (zs "do_set") then Some 7%nat else None in
@@ -289,7 +366,16 @@ Example C19_source_example :
     | _, _ => PNone
     end in
   call_method cr (prim_api (shell_lib ga) (fun _ _ => PNone)) shell_onecmd
-    [("parseline", PRef 1); ("execute", PRef 2); ("error", PRef 3)]%string [PS (s2z "set boxed 1")]
-  = Ok ([("parseline", PRef 1); ("execute", PRef 2); ("error", PRef 3)]%string,
+    [("parseline", PRef 1); ("execute", PRef 2); ("$events", PList [])]%string [PS (s2z "set boxed 1")]
+  = Ok ([("parseline", PRef 1); ("execute", PRef 2); ("$events", PList [])]%string,
         PTuple [PStr "do_set"; PS (s2z "boxed 1")]).
 Proof. vm_compute. reflexivity. Qed.
+
+(* Non-vacuity of the `.set` tie: `.set boxed yes` then `.set nosuch` on the initial store. *)
+Example C19_source_do_set_example :
+  let pr := prim_api (shell_lib (fun _ => None)) (fun _ _ => PNone) in
+  call_method (fun _ _ => PNone) pr shell_do_set (sflds init_state []) [PS (s2z "boxed yes")]
+    = Ok (sflds (Shell.update init_state (s2z "boxed") (SBool true)) [], PNone) /\
+  call_method (fun _ _ => PNone) pr shell_do_set (sflds init_state []) [PS (s2z "nosuch")]
+    = Ok (sflds init_state [PTuple [PS (s2z "error"); PS (s2z "variable ""nosuch"" does not exist")]], PNone).
+Proof. split; vm_compute; reflexivity. Qed.
